@@ -62,6 +62,10 @@ fn views_agree(p: &TheoreticalIsotopicPattern) -> bool {
     ok &= c.origin.to_bits() == p.origin.to_bits() && c.peaks.len() == n;
     let v: Vec<Peak> = c.into_iter().collect();
     ok &= v.len() == n && v.iter().zip(p.peaks.iter()).all(|(a, b)| same(a, b));
+    // `clone_from` into a pattern that already holds something must leave exactly the source
+    let mut d = TheoreticalIsotopicPattern::new(vec![Peak { mz: 1.0, intensity: 1.0 }, Peak { mz: 2.0, intensity: 3.0 }], 7.0);
+    d.clone_from(p);
+    ok &= d.origin.to_bits() == p.origin.to_bits() && d.peaks.len() == n && d.peaks.iter().zip(p.peaks.iter()).all(|(a, b)| same(a, b));
     let w: Vec<Peak> = p.clone().into();
     ok &= w.len() == n && w.iter().zip(p.peaks.iter()).all(|(a, b)| same(a, b));
     ok
